@@ -3,7 +3,8 @@
    Everywhere: ids / idc / zs are unicode.IsOneOf(identifierStart), unicode.IsOneOf(identifierContinue)
    and unicode.Is(Zs) as arbitrary predicates on runes; s ranges over lexer states whose cursor is
    inside its input (js_wf), in particular every state reachable from js_init d. *)
-From Verif Require Import Common.Base Common.Lx Gen.Tables JsLex.Model JsLex.Lemmas JsLex.Next JsLex.Proofs JsLex.Canon.
+From Verif Require Import Common.Base Common.Lx Gen.Tables JsLex.Model JsLex.Lemmas JsLex.Next JsLex.Proofs JsLex.Canon
+  JsLex.Comment JsLex.Regexp.
 
 (* C01: Next and RegExp never panic (no read outside data ++ [0], templateLevels never sliced empty),
    no loop runs out of fuel, and the cursor stays inside [0, len] — also on the error path. *)
@@ -108,3 +109,33 @@ Theorem jslex_relex_template_refuted :
       fst t = ty /\ ~ relex_same ids idc zs t.
 Proof. exact jslex_relex_template_refuted_proof. Qed.
 Print Assumptions jslex_relex_template_refuted.
+
+(* C06 comment kind: a comment token returned by Next (//, <!--, -->, or /* */) is a
+   CommentLineTerminatorToken exactly when its text contains a line terminator (LF, CR, U+2028,
+   U+2029); has_lt is the specification "some suffix of the text starts with a line terminator". *)
+Theorem comment_lt :
+  forall (ids idc zs : Z -> bool) s ty b s',
+    js_wf s -> lstart (jcur s) = lpos (jcur s) ->
+    next ids idc zs s = Ok ((ty, Some b), s') ->
+    (ty = CommentLineTerminatorToken -> has_lt b = true) /\ (ty = CommentToken -> has_lt b = false).
+Proof. exact next_comment_lt. Qed.
+Print Assumptions comment_lt.
+
+(* C06 regexp re-read: for every well-formed RegularExpressionLiteral /body/flags (re_body: the
+   ECMA-262 grammar at byte level, with '/' allowed inside a class and after a backslash; first
+   character not '*'; flags ASCII identifier characters) placed anywhere in an input and followed by a
+   byte that cannot continue the flags, Next returns '/' (or '/=' when the body starts with '=') and
+   RegExp() then returns exactly the literal as one RegExpToken with the cursor right behind it. *)
+Theorem regexp_reread :
+  forall (ids idc zs : Z -> bool) pre body flags r0 rest0 s,
+    re_body false body -> body <> [] -> hd 0 body <> 42 ->
+    Forall (fun c => tab_cont c = true) flags -> tab_cont r0 = false -> r0 < 192 -> wfl (r0 :: rest0) ->
+    lbuf (jcur s) = pre ++ re_lit body flags ++ r0 :: rest0 ->
+    lpos (jcur s) = len pre -> lstart (jcur s) = len pre ->
+    exists t1 s1 s2,
+      next ids idc zs s = Ok (t1, s1) /\
+      (t1 = (DivToken, Some [47]) \/ t1 = (DivEqToken, Some [47; 61])) /\
+      regexp idc s1 = Ok ((RegExpToken, Some (re_lit body flags)), s2) /\
+      lpos (jcur s2) = len pre + len (re_lit body flags) /\ lstart (jcur s2) = lpos (jcur s2).
+Proof. exact regexp_reread_proof. Qed.
+Print Assumptions regexp_reread.
